@@ -66,6 +66,129 @@ def _lib_calls(events, prefix):
     return [e for e in events if e[0] == 'call' and e[1].startswith(prefix)]
 
 
+def integration_parameters_by_value(prog, gp):
+    """_get_integration_parameters executed abstractly on a three-epoch history (root epoch of infinite length, one deme; then one deme;
+    then two demes, the second frozen), Ne and the graph symbolic: what it returns for the integration times, the migration matrices
+    and the frozen flags -> {'T': (ok, detail), 'M': ..., 'frozen': ...}; empty when it cannot be evaluated"""
+    import math
+    from sa import miniexec as mx
+    from sa import alpha as _alpha
+    m = prog.mod(DM)
+    known_ = _alpha.load_table().get('__params__', {}).get(m.rel)
+    known_ = set(known_) if known_ is not None else None
+
+    class W(mx.Interp):
+        def compare(self, op, l, r):
+            res = mx.Interp.compare(self, op, l, r)
+            if res is None and isinstance(op, (ast.Eq, ast.NotEq)):
+                for a_, b_ in ((l, r), (r, l)):
+                    if ((isinstance(b_, float) and b_ == math.inf) or (isinstance(b_, mx.Sym) and b_.text in ('math.inf', 'numpy.inf', 'np.inf', 'inf'))) and isinstance(a_, mx.Sym) and \
+                            a_.text not in ('math.inf', 'numpy.inf', 'np.inf', 'inf'):
+                        # a quotient by the (finite, positive) reference size is infinite exactly when its numerator is
+                        is_inf = 'inf' in mx.show(a_)
+                        return is_inf if isinstance(op, ast.Eq) else not is_inf
+            return res
+    epochs = {(200.0, 100.0): ['A'], (100.0, 0.0): ['A', 'B'], (math.inf, 200.0): ['A']}
+    it = W(prog, m, known_functions=known_, symbolic_loops=False)
+    try:
+        paths = [p_ for p_ in it.run(gp, {'g': mx.Sym('g'), 'demes_present': dict(epochs), 'frozen_list': ['B'], 'Ne': mx.Sym('Ne')}) if p_[0][0] == 'return']
+    except mx.Undecidable:
+        return {}
+    if len(paths) != 1 or not isinstance(paths[0][0][1], tuple) or len(paths[0][0][1]) != 4:
+        return {}
+    (nu_funcs, mats, times, frozen), events = paths[0][0][1], paths[0][1]
+    order = sorted(epochs, reverse=True)
+    out = {}
+    if not all(isinstance(x, list) and len(x) == 3 for x in (nu_funcs, mats, times, frozen)):
+        return {}
+
+    def leaf(v):
+        if isinstance(v, mx.Sym) and v.struct is None and v.text == 'Ne':
+            return Rat.atom('Ne')
+        c = mx.call_of(v, '_migration_rate_in_interval') if isinstance(v, mx.Sym) else None
+        if c is not None:
+            return Rat.atom('RATE[%d]' % id(v))
+        return None
+    # times
+    badT = []
+    for k, iv in enumerate(order):
+        want = Rat.const(0) if iv[0] == math.inf else Rat.const(Fraction(iv[0] - iv[1]).limit_denominator(10 ** 6)) / (Rat.const(2) * Rat.atom('Ne'))
+        try:
+            got = mx.to_rat(times[k], leaf)
+            if not got.equals(want):
+                badT.append('epoch (%s, %s): T = %s' % (iv[0], iv[1], got.canon()[:40]))
+        except AlgebraError:
+            badT.append('epoch (%s, %s): T = %s' % (iv[0], iv[1], mx.show(times[k])[:40]))
+    out['T'] = (not badT, '; '.join(badT) if badT else 'T = (t_start - t_end)/(2 Ne) for every epoch, 0 for the root epoch (3 epochs executed abstractly)')
+    # frozen flags
+    wantz = [[d == 'B' for d in epochs[iv]] for iv in order]
+    out['frozen'] = (frozen == wantz, 'frozen flags %s' % (frozen,) if frozen != wantz else 'one flag per live deme in the order of the live demes, set for the demes of frozen_list')
+    # migration matrices
+    pp = positional_params(prog.func(DM, '_migration_rate_in_interval'))
+    badM = []
+    for k, iv in enumerate(order):
+        live = epochs[iv]
+        M = mats[k]
+        z = mx.call_of(M, 'zeros') if isinstance(M, mx.Sym) else None
+        if z is None or not z[0] or list(z[0][0]) != [len(live), len(live)]:
+            badM.append('epoch %d: matrix %s' % (k, mx.show(M)[:40]))
+            continue
+        cells = {}
+        for e in events:
+            if e[0] == 'setitem' and e[4] is M:
+                cells[tuple(e[2]) if isinstance(e[2], (tuple, list)) else e[2]] = e[3]
+            elif e[0] == 'augitem' and e[1] is M:
+                badM.append('epoch %d: accumulates into the matrix' % k)
+        for jj, d_to in enumerate(live):
+            for ii, d_from in enumerate(live):
+                v = cells.get((jj, ii))
+                if ii == jj:
+                    if v is not None:
+                        badM.append('epoch %d: diagonal entry set' % k)
+                    continue
+                if v is None:
+                    badM.append('epoch %d: M[%d, %d] is never set' % (k, jj, ii))
+                    continue
+                fac = mx.factors(v, '*')
+                calls = [f for f in fac if isinstance(f, mx.Sym) and mx.call_of(f, '_migration_rate_in_interval') is not None]
+                if len(calls) != 1:
+                    badM.append('epoch %d: M[%d, %d] = %s' % (k, jj, ii, mx.show(v)[:50]))
+                    continue
+                c = mx.call_of(calls[0], '_migration_rate_in_interval')
+                b = dict(zip(pp, c[0]))
+                b.update(c[1])
+                try:
+                    coef = mx.to_rat(v, leaf) / Rat.atom('RATE[%d]' % id(calls[0]))
+                except AlgebraError:
+                    coef = None
+                if not (b.get('source') == d_from and b.get('dest') == d_to and mx.show(b.get('time_interval')) == mx.show(iv) and coef is not None and coef.equals(Rat.const(2) * Rat.atom('Ne'))):
+                    badM.append('epoch %d: M[%d, %d] = %s x rate(source=%s, dest=%s) where row %d is %s and column %d is %s' % (
+                        k, jj, ii, coef.canon() if coef is not None else '?', b.get('source'), b.get('dest'), jj, d_to, ii, d_from))
+    out['M'] = (not badM, '; '.join(badM[:3]) if badM else 'M[row of dest, column of source] = 2 Ne rate(source -> dest) in the epoch, diagonal untouched')
+    return out
+
+
+def nu_constant_by_value(prog, mk):
+    """_make_nu_func on epochs that are all constant: the list of N/Ne in the order of the demes"""
+    from sa import miniexec as mx
+    m = prog.mod(DM)
+    it = mx.Interp(prog, m, symbolic_loops=False)
+    sizes = [(mx.Sym('Na'), mx.Sym('Na'), 'constant'), (mx.Sym('Nb'), mx.Sym('Nb'), 'constant')]
+    try:
+        paths = [p_ for p_ in it.run(mk, {'sizes': sizes, 'T': mx.Sym('T'), 'Ne': mx.Sym('Ne')}) if p_[0][0] == 'return']
+    except mx.Undecidable as e:
+        return False, 'not recognised: %s' % e
+    if len(paths) != 1:
+        return False, 'not recognised: %d paths' % len(paths)
+    v = paths[0][0][1]
+    c = mx.call_of(v, 'array') if isinstance(v, mx.Sym) else None
+    if c is not None and c[0]:
+        v = c[0][0]
+    got = [mx.show(x).replace(' ', '') for x in v] if isinstance(v, (list, tuple)) else None
+    ok = got == ['(Na/Ne)', '(Nb/Ne)']
+    return ok, 'constant epochs: nu = N/Ne' if ok else 'constant epochs give %s' % (got if got is not None else mx.show(v)[:60])
+
+
 def check_integrate_phi(rep, prog, m):
     """what _integrate_phi hands to the integrators, for 1..5 populations (abstract execution with a concrete list of labels and
     symbolic parameter arrays): the integrator for that many populations, every indexed parameter bound to the like-indexed element"""
@@ -329,7 +452,10 @@ def check_root_equilibrium(rep, prog, m):
     mk = prog.func(DM, '_make_nu_func')
     t = ast.unparse(mk)
     okm = 'nu_func = [s[0] / Ne for s in sizes]' in t
-    rep.ob('R-ALG', '_make_nu_func constant sizes', okm, 'constant epochs: nu = N/Ne', m.rel, mk.lineno, what='relative sizes are N/Ne')
+    detm = 'constant epochs: nu = N/Ne'
+    if not okm:
+        okm, detm = nu_constant_by_value(prog, mk)
+    rep.ob('R-ALG', '_make_nu_func constant sizes', okm, detm, m.rel, mk.lineno, what='relative sizes are N/Ne')
 
 
 def check_units(rep, prog, m):
@@ -343,7 +469,12 @@ def check_units(rep, prog, m):
             ok = parse_expr(ast.unparse(T[0].value).replace('interval[0]', 't0').replace('interval[1]', 't1')).equals(parse_expr('(t0 - t1)/(2*Ne)'))
         except AlgebraError:
             ok = False
-    rep.ob('R-ALG', '_get_integration_parameters T', ok, ast.unparse(T[0]) if T else 'no assignment to T', rel, T[0].lineno if T else gp.lineno, what='T = (t_start - t_end)/(2 Ne)')
+    BYV = {}
+    if not ok:
+        BYV.update(integration_parameters_by_value(prog, gp))
+        if 'T' in BYV:
+            ok = BYV['T'][0]
+    rep.ob('R-ALG', '_get_integration_parameters T', ok, BYV['T'][1] if 'T' in BYV else (ast.unparse(T[0]) if T else 'no assignment to T'), rel, T[0].lineno if T else gp.lineno, what='T = (t_start - t_end)/(2 Ne)')
     mig = [n for n in own_nodes(gp) if isinstance(n, ast.Assign) and isinstance(n.targets[0], ast.Subscript) and ast.unparse(n.targets[0].value) == 'mig_mat']
     ok = False
     det = 'no store into mig_mat'
@@ -375,11 +506,22 @@ def check_units(rep, prog, m):
         except AlgebraError:
             okv = False
         ok = okf and okv
+    if not ok:
+        if not BYV:
+            BYV.update(integration_parameters_by_value(prog, gp))
+        if 'M' in BYV:
+            ok, det = BYV['M']
     rep.ob('R-ALG', '_get_integration_parameters M', ok, det, rel, mig[0].lineno if mig else gp.lineno, what='M[dest, source] = 2 Ne m(source -> dest)')
     # reader side in _integrate_phi: m<i><j> = M[i-1, j-1] (checked by R-IDX) means rate into i from j: dest-major -> consistent
     fr = [n for n in own_nodes(gp) if isinstance(n, ast.Assign) and ast.unparse(n.targets[0]) == 'freeze']
     okz = bool(fr) and ast.unparse(fr[0].value) == '[d in frozen_list for d in live_demes]'
-    rep.ob('R-IDX', '_get_integration_parameters frozen', okz, ast.unparse(fr[0]) if fr else '', rel, fr[0].lineno if fr else gp.lineno, what='frozen flags follow the order of live demes')
+    detz = ast.unparse(fr[0]) if fr else ''
+    if not okz:
+        if not BYV:
+            BYV.update(integration_parameters_by_value(prog, gp))
+        if 'frozen' in BYV:
+            okz, detz = BYV['frozen']
+    rep.ob('R-IDX', '_get_integration_parameters frozen', okz, detz, rel, fr[0].lineno if fr else gp.lineno, what='frozen flags follow the order of live demes')
     # _make_nu_func
     mk = prog.func(DM, '_make_nu_func')
     rep.saw_function(rel + ':_make_nu_func')
